@@ -1,6 +1,6 @@
 ------------------------------- MODULE Grid -------------------------------
 (***************************************************************************)
-(* The grid builder as a state machine (SetKernel = Init, Skip, NextWG)    *)
+(* The grid builder as a state machine (Init + SetKernel, Skip, NextWG)    *)
 (* over the operators of GridOps, and the invariants that state property   *)
 (* C08 on it.  Model-checked exhaustively by MC_Grid*.cfg; GridScen.tla    *)
 (* turns its behaviours into scenarios for the real kernels.GridBuilder.   *)
